@@ -1,0 +1,20 @@
+//! Verification hook (cargo feature `verif`, off by default).
+//!
+//! Lets a deterministic simulator answer the priority draw of every node created on the current
+//! thread, including nodes created inside `Treap::insert_at` / `Treap::from_item`.
+//! When no source is installed the library's own generator is used, exactly as without the feature.
+
+use std::cell::Cell;
+
+thread_local! {
+    static PRIORITY_SOURCE: Cell<Option<fn() -> u32>> = Cell::new(None);
+}
+
+/// Installs (or, with `None`, removes) the priority source of the current thread.
+pub fn set_priority_source(source: Option<fn() -> u32>) {
+    PRIORITY_SOURCE.with(|s| s.set(source));
+}
+
+pub(crate) fn priority_source() -> Option<fn() -> u32> {
+    PRIORITY_SOURCE.with(|s| s.get())
+}
